@@ -1801,6 +1801,9 @@ def run14(case):
                     hb = re.findall(_EV_MARK, bo)
                     ha = re.findall(_EV_MARK, a)
                     lost = [h for h in hb if h not in ha]
+                    if kind == 'cont' and not lost:
+                        # the handler ran in both arms, but fewer times after RENUM (e.g. a pending event was dropped)
+                        lost = [h for h in hb if hb.count(h) > ha.count(h)]
                     what = u(lost[0]) if lost else 'output-differs'
                     if kind == 'cont' and not lost and bo.count(b'EH') != a.count(b'EH'):
                         # the program's ON ERROR handler (every one prints EH...) ran in one arm only
